@@ -1,4 +1,5 @@
 import SieveModel.Model.Client
+import SieveModel.Lemmas.Base64
 import SieveModel.Generated.MsConsts
 /-! # C16 — SASL mechanism selection and payloads -/
 namespace C16
@@ -45,5 +46,117 @@ theorem none_selected_when_none_announced (authmech : Option Bytes) (srv : List 
       · exact hx
     · exact hx
   simpa using h x hxs
+
+
+/-! ### payloads -/
+
+/-- split at NUL bytes -/
+def splitNul : Bytes → List Bytes
+  | [] => [[]]
+  | c :: rest =>
+    match splitNul rest with
+    | [] => [[c]]
+    | p :: ps => if c == 0 then [] :: p :: ps else (c :: p) :: ps
+
+theorem splitNul_nulfree (a : Bytes) (h : ∀ c ∈ a, c ≠ 0) : splitNul a = [a] := by
+  induction a with
+  | nil => rfl
+  | cons c cs ih =>
+    have hc : (c == 0) = false := by simpa using h c (by simp)
+    simp [splitNul, ih (fun x hx => h x (by simp [hx])), hc]
+
+theorem splitNul_append (a b : Bytes) (h : ∀ c ∈ a, c ≠ 0) : splitNul (a ++ 0 :: b) = a :: splitNul b := by
+  induction a with
+  | nil =>
+    simp only [List.nil_append, splitNul]
+    cases hs : splitNul b with
+    | nil =>
+      -- splitNul never returns []
+      exfalso
+      clear h
+      induction b with
+      | nil => simp [splitNul] at hs
+      | cons x xs ih =>
+        simp only [splitNul] at hs
+        cases hx : splitNul xs with
+        | nil => exact ih hx
+        | cons p ps => rw [hx] at hs; simp only at hs; split at hs <;> simp at hs
+    | cons p ps => simp
+  | cons c cs ih =>
+    have hc : (c == 0) = false := by simpa using h c (by simp)
+    simp only [List.cons_append, splitNul, ih (fun x hx => h x (by simp [hx])), hc]
+    simp
+
+/-- RFC 4616 PLAIN: the base64 argument decodes to `authzid NUL authcid NUL passwd` and splitting at
+    the NULs gives back exactly the caller's three values (for NUL-free credentials) -/
+theorem plain_carries_exactly_the_credentials (login pw authz : Bytes)
+    (h1 : ∀ c ∈ login, c ≠ 0) (h2 : ∀ c ∈ pw, c ≠ 0) (h3 : ∀ c ∈ authz, c ≠ 0) :
+    (Base64.decode (plainPayload login pw authz)).map splitNul = some [authz, login, pw] := by
+  unfold plainPayload intercalate0
+  rw [Base64.decode_encode]
+  simp only [Option.map, List.append_assoc, List.singleton_append]
+  have e : authz ++ (0 :: login ++ 0 :: pw) = authz ++ 0 :: (login ++ 0 :: pw) := by simp
+  rw [e, splitNul_append authz _ h3, splitNul_append login _ h1, splitNul_nulfree pw h2]
+
+/-- LOGIN: each continuation line is the quoted base64 of the value -/
+theorem login_lines_carry_the_credentials (v : Bytes) : Base64.decode (Base64.encode v) = some v :=
+  Base64.decode_encode v
+
+/-- RFC 7628 saslname un-escaping -/
+def unSaslName : Bytes → Bytes
+  | 61 :: 50 :: 67 :: rest => 44 :: unSaslName rest
+  | 61 :: 51 :: 68 :: rest => 61 :: unSaslName rest
+  | c :: rest => c :: unSaslName rest
+  | [] => []
+
+theorem saslName_roundtrip (l : Bytes) : unSaslName (saslName l) = l := by
+  induction l with
+  | nil => simp [saslName, unSaslName]
+  | cons c cs ih =>
+    unfold saslName
+    by_cases h61 : c = 61
+    · subst h61; simp [unSaslName, ih]
+    · have h61' : (c == 61) = false := by simpa using h61
+      simp only [h61', Bool.false_eq_true, if_false]
+      by_cases h44 : c = 44
+      · subst h44; simp [unSaslName, ih]
+      · have h44' : (c == 44) = false := by simpa using h44
+        simp only [h44', Bool.false_eq_true, if_false]
+        rw [unSaslName.eq_def]
+        simp [h61, ih]
+
+/-- the escaped user name contains no comma: it cannot end the gs2 header early -/
+theorem saslName_has_no_comma (l : Bytes) : ∀ c ∈ saslName l, c ≠ 44 := by
+  induction l with
+  | nil => simp [saslName]
+  | cons x xs ih =>
+    unfold saslName
+    intro c hc
+    split at hc
+    · simp only [List.mem_cons] at hc
+      rcases hc with rfl | rfl | rfl | hc
+      · decide
+      · decide
+      · decide
+      · exact ih c hc
+    · split at hc
+      · simp only [List.mem_cons] at hc
+        rcases hc with rfl | rfl | rfl | hc
+        · decide
+        · decide
+        · decide
+        · exact ih c hc
+      · rename_i h44
+        simp only [List.mem_cons] at hc
+        rcases hc with rfl | hc
+        · simpa using h44
+        · exact ih c hc
+
+/-- the OAUTHBEARER message decodes (base64) to `n,a=<saslname>,^Aauth=Bearer <token>^A^A` -/
+theorem oauthbearer_message (login token : Bytes) :
+    Base64.decode (oauthPayload login token)
+      = some (sb "n,a=" ++ saslName login ++ [44, 1] ++ sb "auth=Bearer " ++ token ++ [1, 1]) := by
+  unfold oauthPayload
+  exact Base64.decode_encode _
 
 end C16
